@@ -115,13 +115,42 @@ def patches_for(prop):
 
 
 def run_for(prop, ctx=None):
-    """thorough tier: returns extra coverage keys"""
+    """thorough tier: returns extra coverage keys.  The corpus entries of the property are evaluated by a small pool of
+    workers (each with its own fact cache / cargo target directory); VERIF_SELFTEST_JOBS=1 forces the sequential form."""
+    jobs = [(p, prop, expect, silent) for p, expect, silent in patches_for(prop)]
+    try:
+        nw = int(os.environ.get("VERIF_SELFTEST_JOBS", "0")) or max(1, min(6, (os.cpu_count() or 2) // 2))
+    except ValueError:
+        nw = 1
     res = []
-    for p, expect, silent in patches_for(prop):
-        r = check_patch(p, prop, expect, silent)
-        if "seeded" in p:
-            r["patch"] = "seeded/" + os.path.basename(os.path.dirname(p))
-        res.append(r)
+    if nw > 1 and len(jobs) > 2:
+        import multiprocessing
+        base = factsmod.CACHE
+
+        def init(counter):
+            with counter.get_lock():
+                counter.value += 1
+                me = counter.value
+            d = base + "-w%d" % me
+            if not os.path.isdir(os.path.join(d, "target")):
+                os.makedirs(d, exist_ok=True)
+                if os.path.isdir(os.path.join(base, "target")):
+                    subprocess.run(["cp", "-r", os.path.join(base, "target"), os.path.join(d, "target")])
+            factsmod.CACHE = d
+        counter = multiprocessing.Value("i", 0)
+        try:
+            with multiprocessing.Pool(nw, initializer=init, initargs=(counter,)) as pool:
+                for r in pool.imap(_worker, jobs):
+                    r["patch"] = r.pop("label", r["patch"])
+                    res.append(r)
+        finally:
+            factsmod.CACHE = base
+    else:
+        for p, prop_, expect, silent in jobs:
+            r = check_patch(p, prop_, expect, silent)
+            if "seeded" in p:
+                r["patch"] = "seeded/" + os.path.basename(os.path.dirname(p))
+            res.append(r)
     summary = {
         "self_validation": res,
         "self_validation_summary": {
